@@ -1346,3 +1346,31 @@ func reqPins(ts []reqTest, want bool) map[string]bool {
 	}
 	return as
 }
+
+// lookupsOfField lists the comma-ok map lookups executed by fn (through
+// helpers no rule names) whose map is field owner - per call chain, so that a
+// small set type with a `has` method shared by several owners is attributed
+// to the owner this function hands it.
+func (c *Ctx) lookupsOfField(fn *ssa.Function, owner string) []*ssa.Lookup {
+	var out []*ssa.Lookup
+	seen := map[*ssa.Lookup]bool{}
+	eng.InstrsCtx(fn, func(in ssa.Instruction, stack []*ssa.Call) {
+		l, ok := in.(*ssa.Lookup)
+		if !ok || !l.CommaOk || seen[l] {
+			return
+		}
+		rs := eng.ResolveAllCtx(l.X, stack)
+		if len(rs) == 0 {
+			return
+		}
+		for _, r := range rs {
+			o, _, _, isLoad := eng.LoadedFieldRaw(r)
+			if !isLoad || o != owner {
+				return
+			}
+		}
+		seen[l] = true
+		out = append(out, l)
+	})
+	return out
+}
